@@ -431,6 +431,9 @@ func (t *Term) SMT(ref func(*Term) string) string {
 	case OpExtract:
 		return fmt.Sprintf("((_ extract %d 0) %s)", t.W-1, ref(t.Args[0]))
 	case OpUF:
+		if len(t.Args) == 0 {
+			return "|" + t.Name + "|"
+		}
 		var sb strings.Builder
 		sb.WriteString("(|" + t.Name + "|")
 		for _, a := range t.Args {
